@@ -334,6 +334,90 @@ def work_offsets(job):
     return acc.result()
 
 
+UNB = ['A:A', 'A:B', 'B:D', 'C:C', 'XFD:XFD', 'XFC:XFD', '1:1', '3:5', '4:6', '2:2', '1048576:1048576', '1048575:1048576',
+       'A1:C3', 'B2:D4', 'B2', 'A5', 'XFD1', 'A1:XFD1048576', 'A1:A1048576', 'A1:XFD1']
+
+
+def bounds_of_text(t):
+    """(c1, r1, c2, r2, rows_open, cols_open) of a sheet-less address text, an open direction spans the sheet"""
+    a, _, b = t.partition(':')
+    b = b or a
+
+    def part(x):
+        col = ''.join(ch for ch in x if ch.isalpha())
+        row = ''.join(ch for ch in x if ch.isdigit())
+        c = 0
+        for ch in col:
+            c = c * 26 + ord(ch) - 64
+        return c, int(row) if row else 0
+    (c1, r1), (c2, r2) = part(a), part(b)
+    return (c1 or 1, r1 or 1, c2 or MAXC, r2 or MAXR, r1 == 0, c1 == 0)
+
+
+def norm_result(a):
+    """the rectangle an address object denotes, an open direction spans the sheet"""
+    if isinstance(a, str):
+        return a
+    c1, r1, c2, r2 = a.start.col_idx, a.start.row, a.end.col_idx, a.end.row
+    return (c1 or 1, r1 or 1, c2 or MAXC, r2 or MAXR)
+
+
+def work_unbounded(job):
+    """the lattice laws with whole-column / whole-row operands (and a multi-colon spelling): the result denotes
+    exactly the common cells / the bounding box, whichever way round, a range is idempotent, and the printed result
+    parses back to itself; judged on the rectangles (an open direction = 1..limit)"""
+    from pycel.excelutil import AddressRange
+    acc = Acc()
+
+    def bad(law, x, msg):
+        acc.violation(dict(kind='lattice', law=law, verdict='fails', input=jsonable(x)), f'{law}: {msg}')
+    for sheet in ('', 'S'):
+        pre = sheet + '!' if sheet else ''
+        objs = {t: AddressRange.create(pre + t) for t in UNB}
+        rect = {t: bounds_of_text(t)[:4] for t in UNB}
+        for x in UNB:
+            for y in UNB:
+                acc.add('evaluations', 2)
+                acc.add('states')
+                acc.add('distinct_nontrivial')
+                a, b = rect[x], rect[y]
+                ic = (max(a[0], b[0]), max(a[1], b[1]), min(a[2], b[2]), min(a[3], b[3]))
+                want_i = ic if ic[0] <= ic[2] and ic[1] <= ic[3] else '#NULL!'
+                want_u = (min(a[0], b[0]), min(a[1], b[1]), max(a[2], b[2]), max(a[3], b[3]))
+                for law, op, want in (('intersection', lambda p, q: p & q, want_i), ('union', lambda p, q: p ** q, want_u)):
+                    try:
+                        r1, r2 = op(objs[x], objs[y]), op(objs[y], objs[x])
+                    except Exception as exc:
+                        bad(law, [x, y], f'{pre}{x} {law} {pre}{y} raised {type(exc).__name__}: {exc}')
+                        continue
+                    if norm_result(r1) != want:
+                        bad(law, [x, y], f'{pre}{x} {law} {pre}{y} = {r1!s} = {norm_result(r1)}, expected the rectangle {want}')
+                    elif norm_result(r2) != norm_result(r1) or str(r1) != str(r2):
+                        bad('commutative', [x, y], f'{pre}{x} {law} {pre}{y} = {r1!s} but reversed {r2!s}')
+                    elif not isinstance(r1, str):
+                        try:
+                            back = AddressRange.create(str(r1))
+                            if back != r1:
+                                bad('roundtrip', [x, y], f'{r1!s} (result of {pre}{x} {law} {pre}{y}) parses back to {back!s}')
+                        except Exception as exc:
+                            bad('roundtrip', [x, y], f'{r1!s} (result of {pre}{x} {law} {pre}{y}) does not parse: {type(exc).__name__}')
+            if str(objs[x] & objs[x]) != str(objs[x]) or str(objs[x] ** objs[x]) != str(objs[x]):
+                bad('idempotent', x, f'{pre}{x} & itself = {objs[x] & objs[x]!s}, ** itself = {objs[x] ** objs[x]!s}')
+    # a multi-colon spelling is the bounding rectangle of its parts, with or without a sheet
+    for txt, same in (('A1:B2:C3', 'A1:C3'), ('C3:A1:B2', 'A1:C3'), ('S!A1:B2:C3', 'S!A1:C3'), ('B2:B2:D4', 'B2:D4')):
+        acc.add('evaluations')
+        try:
+            a, b = AddressRange.create(txt), AddressRange.create(same)
+            forms = [a.address, a.quoted_address, a.abs_address]
+            if a != b or hash(a) != hash(b) or a.sheet != b.sheet or any(AddressRange.create(f) != b for f in forms) or \
+                    str(a & b) != str(b & a) or (a & b).sheet != (b & a).sheet:
+                bad('notations', txt, f'{txt} -> {a!r} (sheet {a.sheet!r}) is not the same address as {same} -> {b!r}')
+        except Exception as exc:
+            bad('notations', txt, f'{txt}: {type(exc).__name__}: {exc}')
+    acc.counts['transitions'] = acc.counts.get('evaluations', 0)
+    return acc.result()
+
+
 def run(ctx):
     n = 16
     sh = SHEETS[ctx.seed % len(SHEETS):] + SHEETS[:ctx.seed % len(SHEETS)]
@@ -342,12 +426,17 @@ def run(ctx):
     m = 64 if not ctx.thorough else 441
     ctx.pmap(work_lattice, [(g, k, m, True) for k in range(m)], timeout=6000)
     ctx.pmap(work_offsets, [(k, n) for k in range(n)], timeout=3000)
+    ctx.pmap(work_unbounded, [(0,)], timeout=600)
     ctx.counts['traces_validated_against_impl'] = ctx.counts.get('evaluations', 0)
     ctx.extra['grid'] = g
     ctx.extra['sheet_names'] = SHEETS
 
 
 def replay(case):
+    if case['kind'] == 'lattice' and (isinstance(case.get('input'), str) or (isinstance(case.get('input'), list) and case['input'] and isinstance(case['input'][0], str))):
+        res = work_unbounded((0,))
+        hits = [m for c, m in res['violations'] if c.get('input') == case.get('input') and c.get('law') == case.get('law')]
+        return bool(hits), '\n'.join(hits[:3]) or 'no violation'
     r = {'address': work_roundtrip, 'lattice': work_lattice, 'offset': work_offsets}[case['kind']]
     if case['kind'] == 'address':
         res = r((SHEETS, 0, 1))
